@@ -45,6 +45,20 @@ def monomial_by_unrolling(v, f, coefs, minus_one, sizes=(1, 2, 3, 4, 5, 8)):
                     if ix is None or x["op"] != "=":
                         return None, "store %s %s at line %s" % (sym.show(x["lv"]), x["op"], x["l"])
                     got[ix] = x["val"]
+                elif x["e"] == "call" and x["name"] in ("memcpy", "std::memcpy", "memmove", "std::memmove") and len(x["args"]) == 3:
+                    # a block copy into the result: element u of the block is in[offset + u]
+                    strip_ = lambda t_: strip_(t_[2]) if t_ and t_[0] == "cast" else t_
+                    (db, do), (sb, so) = sym.ptr_split(strip_(x["args"][0])), sym.ptr_split(strip_(x["args"][1]))
+                    nb = sym.const_value(sym.fold(sym.subst(strip_(x["args"][2]), {P(src, "N"): I(nv), P(res, "N"): I(nv)})))
+                    d0, s0 = sym.const_value(do), sym.const_value(so)
+                    if db == OUT and (sb != IN or None in (nb, d0, s0) or nb % 4):
+                        return None, "block copy into the result at line %s not resolved" % x["l"]
+                    if db == OUT:
+                        for u in range(nb // 4):
+                            got[d0 + u] = sym.idx(IN, I(s0 + u))
+                elif x["e"] == "call" and any(isinstance(a_, tuple) and sym.root_of(a_) == sym.root_of(OUT) for a_ in x.get("args", []) if a_ is not None) \
+                        and not x.get("noreturn"):
+                    return None, "call of %s on the result at line %s" % (x["name"], x["l"])
             for i_ in range(nv):
                 srci = (i_ - av) % nv
                 wraps = (srci - (i_ - av)) // nv
@@ -93,11 +107,16 @@ def check_monomial(chk, v, name, coefs, minus_one):
         if len(guards) == 2:
             g1, g2 = sorted(guards, key=repr)
             comp = len(g1) == 1 and len(g2) == 1 and (g1[0] == sym.unop("!", g2[0]) or g2[0] == sym.unop("!", g1[0]))
-            if not comp:
-                ok, detail = False, "the two guard alternatives %s / %s are not complementary" % (
-                    [sym.show(x) for x in g1], [sym.show(x) for x in g2])
-        elif len(guards) != 1 or guards != {()}:
-            ok, detail = False, "unexpected guard structure %s" % [[sym.show(x) for x in g] for g in guards]
+            shape = None if comp else "the two guard alternatives %s / %s are not complementary" % ([sym.show(x) for x in g1], [sym.show(x) for x in g2])
+        else:
+            shape = None if (len(guards) == 1 and guards == {()}) else "guard structure %s" % [[sym.show(x) for x in g] for g in guards]
+        if shape:
+            # alternatives the case analysis above does not know (an early return for a degenerate exponent, more than two cases):
+            # decided by unrolling for small N and every exponent
+            oku, detu = monomial_by_unrolling(v, f, coefs, minus_one)
+            if oku is None:
+                chk.broken("%s: %s; %s" % (name, shape, detu))
+            ok, detail, infos = oku, detu, []
     chk.require(ok, "R1", key, where=f.where, ok=detail + "; " + "; ".join(
         "%s<-%s%s" % (i["range"], "-" if i["sign"] < 0 else "+", i["src"]) for i in infos)[:300], bad=detail, variant=v.name,
         data={"pieces": infos})
